@@ -5,6 +5,7 @@ open Panacea Aol CompKey
 
 structure AolD where
   st : Aol.State := {}
+  saved : Option Aol.State := none   -- the state at `aol.begin` (a branch that will be discarded)
   now : Int := 0
 
 /-- `err #<code>`: everything after `#` is informational and ignored by the comparison. -/
@@ -58,6 +59,8 @@ def aolStep (tbl : AddrTable) (d : AolD) : List String → Option (AolD × Strin
   | ["reset"] => some ({}, "-")
   | ["now", n] => n.toInt?.map fun t => ({ d with now := t }, "-")
   | ["aol.dump"] => some (d, "ok " ++ aolDump d.st)
+  | ["aol.begin"] => some ({ d with saved := some d.st }, "-")
+  | ["aol.abort"] => some ({ d with st := d.saved.getD d.st, saved := none }, "-")
   | "aol.msg" :: rest => do
       let m ← aolParseMsg rest
       match handle (codecOf tbl) d.now d.st m with
